@@ -31,7 +31,7 @@ ASSUMPTIONS = ["where OpenFlow 1.0 defines no error (port stats / queue "
                "may appear between replies",
                "flow_mod with an unknown action type is not generated (the "
                "statement lists ports, tables, queues, buffers, commands)"]
-REQUIRED = ["requests_after_an_entry_with_a_vendor_action", "mid_session_hellos", "bounded_table_cases", "barrier_state_probes_with_state_to_see", "requests", "replies_checked", "errors_checked", "no_reply_checked",
+REQUIRED = ["requests_after_an_entry_with_a_vendor_action", "reactive_delivery_compared", "mid_session_hellos", "bounded_table_cases", "barrier_state_probes_with_state_to_see", "requests", "replies_checked", "errors_checked", "no_reply_checked",
             "stats_requests", "batch_compared", "invalid_requests",
             "barrier_probes"]
 TIMEOUT = {"quick": 900, "thorough": 7200}
@@ -628,6 +628,41 @@ def run_sequence (case, rep):
       fire("batched delivery answers differently (order/content)",
            "batched: %r\none by one: %r" % ([describe(m) for m in a][:12],
                                             [describe(m) for m in b][:12]))
+      ok = False
+  # --- and once more with a controller that is wired to the switch back to
+  # back and reacts at once: the next request arrives from inside the
+  # switch's send() of the reply before it
+  if ok and case["n"] <= 24:
+    sw3 = new_switch(case.get("max_entries"))
+    pending = [encode(r) for r in reqs]
+    real_send = sw3.worker.send
+    depth = [0]
+    def send (data):
+      real_send(data)
+      if pending and depth[0] < 30 and not sw3.worker.closed:
+        depth[0] += 1
+        try:
+          sw3.sock.feed(pending.pop(0))
+          sw3.worker._do_recv(sw3.loop)
+        finally:
+          depth[0] -= 1
+    sw3.worker.send = send
+    try:
+      guard = 0
+      while pending and guard < 100:
+        guard += 1
+        sw3.feed(pending.pop(0))
+    except Exception:
+      fire("exception escapes the connection (requests arriving from inside send())",
+           traceback.format_exc()[-700:]); return True
+    out3 = sw3.take_bytes()
+    rep.count("reactive_delivery_compared")
+    if norm(out3) != norm(b"".join(per_request_out)):
+      a = decode_out(out3, fire) or []
+      b = decode_out(b"".join(per_request_out), fire) or []
+      fire("requests arriving from inside send() are answered differently (order/content)",
+           "reactive: %r\none by one: %r" % ([describe(m) for m in a][:12],
+                                             [describe(m) for m in b][:12]))
   return nt
 
 
